@@ -12,6 +12,7 @@
 //@harness check_s_to_ms                  props=C14,C03 kind=full target=s_to_ms
 //@harness check_eval_tcp_throughput      props=C14,C03 kind=full target=eval_tcp_throughput
 //@harness eval_tcp_throughput_rfc_points  props=C14 kind=bounded target=eval_tcp_throughput bound="4 concrete (R,p) points against the literal RFC 5348 3.1 formula, tolerance 1 B/s (CBMC's sqrt is nondeterministic within 1 ulp)" tier=thorough
+//@harness eval_tcp_throughput_point_p1    props=C14 kind=bounded target=eval_tcp_throughput bound="one concrete point (R = 1 s, p = 1): result within 1 B/s of the RFC 5348 3.1 value 6.05 B/s"
 //@harness check_initial_send_rate        props=C14,C03 kind=full target=compute_initial_send_rate
 //@harness check_initial_loss_send_rate   props=C14,C03 kind=full target=compute_initial_loss_send_rate
 //@harness check_update_rtt               props=C14,C03 kind=full target=SendRateComp::update_rtt
@@ -231,3 +232,13 @@ fn eval_tcp_throughput_rfc_points() {
         i += 1;
     }
 }
+
+/// quick-tier sanity point for the throughput equation: at R = 1 s, p = 1 the RFC formula gives
+/// s / (R * (sqrt(2/3) + 12 * sqrt(3/8) * 33)) = 1472 / 243.31 = 6.05 B/s; a wrong constant (e.g. the t_RTO = 4R factor
+/// forgotten: 3 instead of 12) gives 23.9 B/s. The four-point comparison against the literal formula runs in the thorough tier.
+#[kani::proof]
+fn eval_tcp_throughput_point_p1() {
+    let got = eval_tcp_throughput(1.0, 1.0);
+    assert!(got >= 5 && got <= 7, "C14: eval_tcp_throughput(1 s, p = 1) is 6 B/s (RFC 5348 3.1, b = 1, t_RTO = 4R)");
+}
+
